@@ -165,6 +165,7 @@ fn slots_named(e: &Ev) -> Vec<Slot> {
             v.extend(&otherwise.1);
             v
         }
+        Ev::Pass { root, seed: Seed::FromSlot(s), .. } => vec![*root, *s],
         Ev::Pass { root, .. } => vec![*root],
         Ev::GradRead { slot, .. } | Ev::GradClear { slot, .. } | Ev::GradSet { slot, .. } | Ev::DropSlot { slot } | Ev::Rebind { slot } | Ev::Flag { slot, .. } | Ev::Retire { slot } => vec![*slot],
         Ev::CloneTo { src, dst } | Ev::FlagClone { src, dst, .. } => vec![*src, *dst],
@@ -184,7 +185,7 @@ fn rename(e: &Ev, from: Slot, to: Slot) -> Ev {
         Ev::Leaf { dst, dims, vals, mode } => Ev::Leaf { dst: r(dst), dims: dims.clone(), vals: vals.clone(), mode: *mode },
         Ev::Build { dst, op, args } => Ev::Build { dst: r(dst), op: op.clone(), args: rv(args) },
         Ev::CondBuild { cond, thresh, dst, then, otherwise } => Ev::CondBuild { cond: r(cond), thresh: *thresh, dst: r(dst), then: (then.0.clone(), rv(&then.1)), otherwise: (otherwise.0.clone(), rv(&otherwise.1)) },
-        Ev::Pass { root, seed, via_clone } => Ev::Pass { root: r(root), seed: seed.clone(), via_clone: *via_clone },
+        Ev::Pass { root, seed, via_clone } => Ev::Pass { root: r(root), seed: match seed { Seed::FromSlot(s) => Seed::FromSlot(r(s)), other => other.clone() }, via_clone: *via_clone },
         Ev::GradRead { slot, via_clone } => Ev::GradRead { slot: r(slot), via_clone: *via_clone },
         Ev::GradClear { slot, how } => Ev::GradClear { slot: r(slot), how: *how },
         Ev::GradSet { slot, vals, flat } => Ev::GradSet { slot: r(slot), vals: vals.clone(), flat: *flat },
